@@ -229,7 +229,13 @@ func (g *Generator) generateService(gf *protogen.GeneratedFile, file *protogen.F
 		gf.P(`"`, httpMethod, `", config.errorHandler,`)
 		gf.P(")")
 		gf.P()
-		gf.P(`config.mux.Handle("`, httpMethod, ` `, httpPath, `", `, handlerName, `)`)
+		// a ServeMux pattern that ends in a slash matches the whole subtree below it; the route is
+		// this one path, as the clients and the OpenAPI document have it
+		pattern := httpPath
+		if strings.HasSuffix(pattern, "/") {
+			pattern += "{$}"
+		}
+		gf.P(`config.mux.Handle("`, httpMethod, ` `, pattern, `", `, handlerName, `)`)
 		gf.P()
 	}
 
